@@ -3,6 +3,7 @@ package main
 import (
 	"fmt"
 	"math"
+	"sort"
 	"strings"
 
 	clip "github.com/bolom009/go-clipper2"
@@ -333,6 +334,86 @@ func corrProbe(r *Rng, which string) (line, got string) {
 			}
 		}
 		return strings.TrimSpace(fmt.Sprintf("model offplan %d %d %d %d %d %s", math.Float64bits(delta), jt, et, b2i(rev), b2i(pres), pathsStr(ps))), strings.Join(parts, " ; ")
+	case "aelins":
+		// insertion of a local minimum's edge into the active-edge list: residents and newcomer on a
+		// small grid so that equal x at the scanline, shared bottom points and collinear edges (the
+		// tie-breaking branches of isValidAelOrder) are frequent; edges pairwise distinct
+		mk := func(shared *P) clip.VAelEdge {
+			bot := P{X: int64(r.Range(0, 4)), Y: int64(r.Range(3, 6))}
+			if shared != nil && r.Chance(0.5) {
+				bot = *shared
+			}
+			top := P{X: bot.X + int64(r.Range(-3, 3)), Y: bot.Y - int64(r.Range(1, 3))}
+			e := clip.VAelEdge{CurX: bot.X, Bot: bot, Top: top, IsMax: r.Chance(0.3), IsLeft: r.Bool(), LmY: bot.Y, JoinRight: r.Chance(0.08)}
+			if r.Chance(0.3) {
+				e.CurX += int64(r.Range(-1, 1))
+			}
+			if r.Chance(0.2) {
+				e.LmY -= int64(r.Range(0, 1))
+			}
+			e.NextPt = P{X: top.X + int64(r.Range(-3, 3)), Y: top.Y - int64(r.Range(0, 2))}
+			if r.Chance(0.3) { // collinear continuation
+				e.NextPt = P{X: 2*top.X - bot.X, Y: 2*top.Y - bot.Y}
+			}
+			e.PpvPt = P{X: bot.X + int64(r.Range(-3, 3)), Y: bot.Y - int64(r.Range(0, 3))}
+			if r.Chance(0.2) {
+				e.PpvPt = P{X: 2*bot.X - top.X, Y: 2*bot.Y - top.Y}
+			}
+			return e
+		}
+		var es []clip.VAelEdge
+		n := r.Range(0, 5)
+		var sh *P
+		for len(es) < n+1 {
+			e := mk(sh)
+			dup := false
+			for _, o := range es {
+				dup = dup || o == e
+			}
+			if dup {
+				continue
+			}
+			es = append(es, e)
+			sh = &es[0].Bot
+		}
+		// residents in the order they were drawn, except that sorting by CurX most of the time makes the
+		// list look like a real AEL
+		res := es[:n]
+		if r.Chance(0.7) {
+			sort.SliceStable(res, func(i, j int) bool { return res[i].CurX < res[j].CurX })
+		}
+		ae := es[n]
+		var sb strings.Builder
+		fmt.Fprintf(&sb, "model aelins %d", n)
+		for _, e := range es {
+			fmt.Fprintf(&sb, " %d %d %d %d %d %s %d %d %d %d %s %d %s", e.CurX, e.Bot.X, e.Bot.Y, e.Top.X, e.Top.Y, bs(e.IsMax), e.NextPt.X, e.NextPt.Y, e.PpvPt.X, e.PpvPt.Y, bs(e.IsLeft), e.LmY, bs(e.JoinRight))
+		}
+		valid := ""
+		for _, e := range res {
+			valid += bs(clip.VIsValidAelOrder(e, ae))
+		}
+		var order []int
+		got := ""
+		if f := safeCall(func() { order = clip.VInsertLeftEdge(res, ae) }); f != "" {
+			got = "fault"
+		} else {
+			pos, next, ok := -1, 0, len(order) == n+1
+			for i, o := range order {
+				if o == -1 {
+					pos = i
+				} else if o == next {
+					next++
+				} else {
+					ok = false
+				}
+			}
+			if ok && pos >= 0 {
+				got = fmt.Sprint(pos)
+			} else {
+				got = "order-changed"
+			}
+		}
+		return sb.String(), got + " | " + valid
 	case "contain":
 		// the containment vote of the PolyTree owner search: rings on small grids (vertices ON the
 		// other ring, shared edges, crossings), so that all three stages of the test are reached
@@ -632,7 +713,7 @@ func corrProbe(r *Rng, which string) (line, got string) {
 }
 
 var genProbes = []string{"triSign", "multiplyUInt64", "productsAreEqual", "isCollinear", "CrossProduct", "dotProduct64", "segsIntersect", "checkPrecision", "IsOdd", "ptsReallyClose", "isContributingClosed", "isContributingOpen", "getLocation", "getEdgesForPt", "isHeadingClockwise", "headingClockwise", "getAdjacentLocation", "areOpposites", "hasHorzOverlap", "hasVertOverlap", "isClockwise", "getSegmentIntersection", "getSegmentIntersectPt", "rectMethods", "getBounds", "GetBounds64", "Area64", "PerpendicDistFromLineSqr64", "PerpendicDistFromLineSqrD", "areaTriangle"}
-var modelProbes = []string{"offplan", "rectpoly", "rectline", "pipop", "scan", "lowest", "trim", "simp64", "pip", "strip", "mink", "vertex", "clean", "build", "tree", "tree", "areaop", "contain"}
+var modelProbes = []string{"offplan", "rectpoly", "rectline", "pipop", "scan", "lowest", "trim", "simp64", "pip", "strip", "mink", "vertex", "clean", "build", "tree", "tree", "areaop", "contain", "aelins"}
 
 func corrStage(name string, probes []string, quick, thorough int, rule string) {
 	stages[name] = func(ctx *Ctx, cnt func(q, t int) int, replay string) Result {
@@ -664,5 +745,5 @@ func corrStage(name string, probes []string, quick, thorough int, rule string) {
 func init() {
 	corrStage("gen-corr", genProbes, 60000, 3000000, "translator validation: every generated function (Gen.*) is evaluated by the Lean oracle on operand-value inputs and compared with the real function called in-process (sign only for float64 cross / dot products, bit patterns for Area64, areaTriangle, PerpendicDistFromLineSqr64 and PerpendicDistFromLineSqrD, the last on float operands up to 2^29 with segments up to 2^28 long); non-trivial = any probe with a non-empty argument list")
 	corrStage("wind-corr", []string{"windc", "windx", "windd", "windc", "windd", "windopen"}, 60000, 2500000, "correspondence of the winding-count bookkeeping model (Model.Wind) with the real setWindCountForClosedPathEdge / setWindCountForOpenPathEdge / intersectEdges (counts, hotness afterwards and output records created, for hot / cold / front / back / shared-record combinations) run on synthetic active-edge lists (verif hook): 0-5 edges left of the new edge, subject / clip / open edges, all four fill rules, counts either produced by the real insertion (consistent states) or arbitrary in -3..3; resulting counts compared exactly")
-	corrStage("models-corr", modelProbes, 162000, 4500000, "function-level correspondence of the hand models (TrimCollinear64, SimplifyPath64, PointInPolygon, StripDuplicates, minkowskiInternal, addPathsToVertexList [vertex ring, flags, local minima], cleanCollinear's removal loop and buildPath on synthetic output rings, buildTree on synthetic tables of output records with nested / disjoint rectangles, arbitrary owner links and splits lists, pointInOpPolygon, path1InsidePath2 / getCleanPath on synthetic rings and the exported Path2ContainsPath1, areaOP on synthetic rings at magnitudes up to 2^40 (float bit patterns), Group.GetLowestPathInfo, insertScanline / popScanline, RectClipLinesPaths64 [whole line machine] the raw rings of RectClip64.executeInternal [polygon state machine before checkEdges], and the decision events of ClipperOffset.Execute64 [group delta, per-path dispatch, final union]): random paths of 0-8 vertices on 2-4 wide grids (forcing duplicates, collinear runs, wrap-around cases) at three magnitudes; outputs compared exactly; the clean probe is skipped when fixSelfIntersects (not modelled) would act")
+	corrStage("models-corr", modelProbes, 171000, 4750000, "function-level correspondence of the hand models (TrimCollinear64, SimplifyPath64, PointInPolygon, StripDuplicates, minkowskiInternal, addPathsToVertexList [vertex ring, flags, local minima], cleanCollinear's removal loop and buildPath on synthetic output rings, buildTree on synthetic tables of output records with nested / disjoint rectangles, arbitrary owner links and splits lists, pointInOpPolygon, path1InsidePath2 / getCleanPath on synthetic rings and the exported Path2ContainsPath1, isValidAelOrder / insertLeftEdge on synthetic active-edge lists (0-5 residents, shared bottom points, equal x, collinear edges, joined pairs), areaOP on synthetic rings at magnitudes up to 2^40 (float bit patterns), Group.GetLowestPathInfo, insertScanline / popScanline, RectClipLinesPaths64 [whole line machine] the raw rings of RectClip64.executeInternal [polygon state machine before checkEdges], and the decision events of ClipperOffset.Execute64 [group delta, per-path dispatch, final union]): random paths of 0-8 vertices on 2-4 wide grids (forcing duplicates, collinear runs, wrap-around cases) at three magnitudes; outputs compared exactly; the clean probe is skipped when fixSelfIntersects (not modelled) would act")
 }
